@@ -5,7 +5,7 @@ import IrefVerif.Lemmas.ParentSegs
 /-!
 # `relative_to` is total and returns a valid reference
 
-Not the round trip (open finding F12) — the part of C15 that does hold: for every pair of valid
+The part of C15 that holds of every pair: for every pair of valid
 references the model of `RiRefImpl::relative_to` does not panic and its result matches the
 grammar again.
 -/
@@ -22,30 +22,36 @@ theorem dropCommonPanics_false : ∀ (ss bs : List Text), (∀ s ∈ ss, wellEsc
   | nil => intro bs _ _; cases bs <;> rfl
   | cons a as ih =>
     intro bs ha hb
-    cases bs with
-    | nil => rfl
-    | cons b bs' =>
-      simp only [Ref.dropCommonPanics, pctEq_eq a b (ha a List.mem_cons_self) (hb b List.mem_cons_self)]
-      split
-      · rename_i h; cases h
-      · exact ih bs' (fun s hs => ha s (List.mem_cons_of_mem _ hs)) (fun s hs => hb s (List.mem_cons_of_mem _ hs))
-      · rfl
+    cases as with
+    | nil => cases bs <;> rfl
+    | cons a2 as' =>
+      cases bs with
+      | nil => rfl
+      | cons b bs' =>
+        simp only [Ref.dropCommonPanics, pctEq_eq a b (ha a List.mem_cons_self) (hb b List.mem_cons_self)]
+        split
+        · rename_i h; cases h
+        · exact ih bs' (fun s hs => ha s (List.mem_cons_of_mem _ hs)) (fun s hs => hb s (List.mem_cons_of_mem _ hs))
+        · rfl
 
 theorem dropCommon_subset : ∀ (ss bs : List Text),
-    (∀ s ∈ (Ref.dropCommon ss bs).1, s ∈ ss) ∧ (Ref.dropCommon ss bs).2.length ≤ bs.length := by
+    (∀ s ∈ (Ref.dropCommon ss bs).1, s ∈ ss) ∧ (Ref.dropCommon ss bs).2.1.length ≤ bs.length := by
   intro ss
   induction ss with
   | nil => intro bs; cases bs <;> simp [Ref.dropCommon]
   | cons a as ih =>
     intro bs
-    cases bs with
-    | nil => simp [Ref.dropCommon]
-    | cons b bs' =>
-      simp only [Ref.dropCommon]
-      split
-      · obtain ⟨h1, h2⟩ := ih bs'
-        exact ⟨fun s hs => List.mem_cons_of_mem _ (h1 s hs), by simp; omega⟩
-      · exact ⟨fun s hs => hs, Nat.le_refl _⟩
+    cases as with
+    | nil => cases bs <;> simp [Ref.dropCommon]
+    | cons a2 as' =>
+      cases bs with
+      | nil => simp [Ref.dropCommon]
+      | cons b bs' =>
+        simp only [Ref.dropCommon]
+        split
+        · obtain ⟨h1, h2⟩ := ih bs'
+          exact ⟨fun s hs => List.mem_cons_of_mem _ (h1 s hs), by simp; omega⟩
+        · exact ⟨fun s hs => hs, Nat.le_refl _⟩
 
 section
 variable (G : Grammar) (ok : Grammar.Ok G) (okp : Grammar.OkPath G)
@@ -133,6 +139,17 @@ theorem parent_or_empty_props (p : Text) :
     · exact ⟨fun _ => by decide, fun _ => pathText_lit_slash⟩
     · exact ⟨fun _ => by decide, fun _ => by intro c hc; cases hc⟩
 
+/-- the whole of a reference, normalised in place, is a valid reference -/
+theorem whole_valid (a : Text) (ha : Matches G.reference a) :
+    ∃ r, Ref.whole a = some r ∧ Matches G.reference r := by
+  obtain ⟨h', e, hv, _⟩ := path_session_valid G ok okp a ha [.norm] (by intro op hop; simp at hop; subst hop; trivial)
+  have e' : (Ref.path_mut a).normalize = some h' := by
+    simp only [C10.pathRun, C10.pathStep] at e
+    cases hp : (Ref.path_mut a).normalize with
+    | none => rw [hp] at e; cases e
+    | some x => rw [hp] at e; simp at e; rw [e]
+  exact ⟨h'.buffer, by simp [Ref.whole, e'], hv⟩
+
 /-- the path part never panics and returns a valid reference -/
 theorem relative_body_total (we : Grammar.OkWE G) (a other : Text)
     (ha : Matches G.reference a) (ho : Matches G.reference other) :
@@ -144,8 +161,11 @@ theorem relative_body_total (we : Grammar.OkWE G) (a other : Text)
   have hqa := ref_query_recompose (split a) wA
   have hfa := ref_fragment_recompose (split a) wA
   rw [Lemmas.recompose_split] at hpa hpo hqa hfa
+  have hwhole := whole_valid G ok okp a ha
   unfold Ref.relative_body
   simp only [hpa, hpo, hqa, hfa]
+  split
+  · exact hwhole
   have hptA : PathText (split a).path := pathText_of_wf _ wA
   have hptO : PathText (split other).path := pathText_of_wf _ wO
   have hweA : wellEscaped (split a).path = true := path_we G we _ vA
@@ -156,11 +176,15 @@ theorem relative_body_total (we : Grammar.OkWE G) (a other : Text)
   have hbase : Path.normalized_segments (Path.parent_or_empty (split other).path)
       = nsegs (Path.parent_or_empty (split other).path) := normalized_segments_eq _ (hpp hptO)
   rw [hself, hbase]
+  split
+  · exact hwhole
   have hws : ∀ s ∈ nsegs (split a).path, wellEscaped s = true := nsegs_we _ hweA
   have hwb : ∀ s ∈ nsegs (Path.parent_or_empty (split other).path), wellEscaped s = true :=
     nsegs_we _ (hpw hweO)
   rw [dropCommonPanics_false _ _ hws hwb]
-  simp only [Bool.and_false, Bool.false_eq_true, if_false]
+  simp only [Bool.false_eq_true, if_false]
+  split
+  · exact hwhole
   -- the segments pushed are valid segments
   obtain ⟨_, hsegA⟩ := path_segments_valid G ok okp (split a).path (by
     have hgood := good_of_valid G ok okp (split a) vA
@@ -186,16 +210,12 @@ theorem relative_body_total (we : Grammar.OkWE G) (a other : Text)
           exact .inr (.inr (.inr (.inr (by rw [h]; exact (matches_pathEmpty G _).mpr rfl)))))
   have hselfOK : ∀ s ∈ nsegs (split a).path, Matches G.segment s :=
     fun s hs => hsegA s (nsegsOf_subset _ _ s hs)
-  generalize hsb : (if (Path.is_absolute (split a).path == Path.is_absolute (split other).path) = true then
-      Ref.dropCommon (nsegs (split a).path) (nsegs (Path.parent_or_empty (split other).path))
-    else (nsegs (split a).path, nsegs (Path.parent_or_empty (split other).path))) = sb
+  generalize hsb : Ref.dropCommon (nsegs (split a).path) (nsegs (Path.parent_or_empty (split other).path)) = sb
   have hss : ∀ s ∈ sb.1, Matches G.segment s := by
     intro s hs
     rw [← hsb] at hs
-    split at hs
-    · exact hselfOK s ((dropCommon_subset _ _).1 s hs)
-    · exact hselfOK s hs
-  obtain ⟨ss, bs⟩ := sb
+    exact hselfOK s ((dropCommon_subset _ _).1 s hs)
+  obtain ⟨ss, bs, cm⟩ := sb
   simp only [] at hss ⊢
   obtain ⟨r1, e1, v1⟩ := pushAll_valid G ok okp (bs.map fun _ => [cDot, cDot]) [] (empty_reference_valid G ok okp)
     (by intro s hs; simp at hs; obtain ⟨_, _, rfl⟩ := hs; exact seg_dotdot G ok okp)
@@ -210,16 +230,41 @@ theorem relative_body_total (we : Grammar.OkWE G) (a other : Text)
     obtain ⟨r5, e5, v5⟩ := C04.setter_step G ok okp r4 v4 (.fragment (split a).fragment) vA.fragment
     simp only [C04.setStep] at e4 e5
     exact ⟨r5, by simp only [e4, Option.bind_some, e5], v5⟩
-  split
-  · obtain ⟨h', e, hv, _⟩ := path_session_valid G ok okp r2 v2 [.clear] (by intro op hop; simp at hop; subst hop; trivial)
-    have e' : (Ref.path_mut r2).clear = some h' := by
+  have hclear : ∀ r2', Matches G.reference r2' → ∀ c : Bool, ∃ r,
+      (if c = true then
+          (((Ref.path_mut r2').clear).map (·.buffer)).bind fun r3 =>
+            (Ref.set_query r3 (split a).query).bind fun r4 => Ref.set_fragment r4 (split a).fragment
+        else (Ref.set_query r2' (split a).query).bind fun r4 => Ref.set_fragment r4 (split a).fragment) = some r ∧
+        Matches G.reference r := by
+    intro r2' v2' c
+    cases c with
+    | true =>
+      obtain ⟨h', e, hv, _⟩ := path_session_valid G ok okp r2' v2' [.clear] (by intro op hop; simp at hop; subst hop; trivial)
+      have e' : (Ref.path_mut r2').clear = some h' := by
+        simp only [C10.pathRun, C10.pathStep] at e
+        cases hp : (Ref.path_mut r2').clear with
+        | none => rw [hp] at e; cases e
+        | some x => rw [hp] at e; simp at e; rw [e]
+      simp only [if_true, e', Option.map_some, Option.bind_some]
+      exact hfin _ hv
+    | false =>
+      simp only [Bool.false_eq_true, if_false]
+      exact hfin _ v2'
+  -- the closing empty segment when nothing was pushed
+  by_cases hem : Path.is_empty (Ref.path r2) = true
+  · simp only [hem, if_true]
+    obtain ⟨h', e, hv, _⟩ := path_session_valid G ok okp r2 v2 [.push []]
+      (by intro op hop; simp at hop; subst hop; exact okp.seg_nil)
+    have e' : (Ref.path_mut r2).push [] = some h' := by
       simp only [C10.pathRun, C10.pathStep] at e
-      cases hp : (Ref.path_mut r2).clear with
+      cases hp : (Ref.path_mut r2).push [] with
       | none => rw [hp] at e; cases e
       | some x => rw [hp] at e; simp at e; rw [e]
     simp only [e', Option.map_some, Option.bind_some]
-    exact hfin _ hv
-  · exact hfin _ v2
+    exact hclear _ hv _
+  · have hem' : Path.is_empty (Ref.path r2) = false := by simpa using hem
+    simp only [hem', Bool.false_eq_true, if_false, Option.bind_some]
+    exact hclear _ v2 _
 
 /-- **`relative_to` never panics and returns a valid reference** -/
 theorem relative_to_total (oka : Grammar.OkAuth G) (we : Grammar.OkWE G) (a other : Text)
@@ -230,34 +275,41 @@ theorem relative_to_total (oka : Grammar.OkAuth G) (we : Grammar.OkWE G) (a othe
   have haa := ref_authority_recompose (split a) wA
   have hao := ref_authority_recompose (split other) wO
   rw [Lemmas.recompose_split] at haa hao
+  have hwhole := whole_valid G ok okp a ha
+  have hbody := relative_body_total G ok okp we a other ha ho
   unfold Ref.relative_to
   simp only [haa, hao]
   generalize Ref.scheme_opt a = sa
   generalize Ref.scheme_opt other = so
-  have key : ∀ mm : Bool, ∃ r, (if mm = true then some a else
-      match (match (split a).authority, (split other).authority with
-        | some x, some y => Cmp.authorityEq x y
-        | _, _ => some true) with
-      | none => none
-      | some false => some a
-      | some true => Ref.relative_body a other) = some r ∧ Matches G.reference r := by
+  have key : ∀ mm : Bool, ∃ r, (if mm = true then Ref.whole a else
+      match (split a).authority, (split other).authority with
+      | some x, some y =>
+        match Cmp.authorityEq x y with
+        | none => none
+        | some false => Ref.whole a
+        | some true => Ref.relative_body a other
+      | none, none => Ref.relative_body a other
+      | _, _ => Ref.whole a) = some r ∧ Matches G.reference r := by
     intro mm
     cases mm with
-    | true => exact ⟨a, rfl, ha⟩
+    | true => exact hwhole
     | false =>
       simp only [Bool.false_eq_true, if_false]
       cases hx : (split a).authority with
-      | none => exact relative_body_total G ok okp we a other ha ho
+      | none =>
+        cases hy : (split other).authority with
+        | none => exact hbody
+        | some y => exact hwhole
       | some x =>
         cases hy : (split other).authority with
-        | none => exact relative_body_total G ok okp we a other ha ho
+        | none => exact hwhole
         | some y =>
           simp only [authorityEq_key G oka we x y (vA.authority x hx) (vO.authority y hy)]
           by_cases hk : authKey x = authKey y
           · simp only [hk, decide_true]
-            exact relative_body_total G ok okp we a other ha ho
+            exact hbody
           · simp only [hk, decide_false]
-            exact ⟨a, rfl, ha⟩
+            exact hwhole
   cases sa <;> cases so <;> exact key _
 
 end
